@@ -31,9 +31,9 @@ func init() {
 				n = 60000
 			}
 			return fw.Meta{N: n, Level: "exploration", Chunk: 50, CaseTimeoutS: 120, MinNT: 300,
-				Rule:        "seeded writer programs (Write/WriteSync/Seek back to an earlier record boundary/rejected Seek into the header or past the size/Close) over nil, empty, random, compressible and marker-laden records with sizes around buffer, page and 4 KiB-window boundaries x 4 compression types x write buffers {8,13,64,4096,64Ki,default} x buffered/direct-I/O writer; then (a) sequential reader programs mixing ReadNext and SkipNext with read buffers {1,3,16,37,4096,64Ki,4Mi}, (b) ReadNextAt at every returned offset, (c) SeekNext from every byte offset 0..size (files <= 8 KiB; record starts +-2 and window boundaries beyond). Non-trivial: >=3 surviving records incl. a nil or marker-ending one and >=1 skip; distinct by hash of program+config. Payloads embedding a complete valid record image are not generated (format cannot distinguish them)",
-				MinObs:      map[string]int64{"seeknext_offsets_checked": 100000, "skips_checked": 1000, "nil_records_skipped": 50, "seek_back_programs": 100, "rejected_seeks": 100, "readat_checked": 5000, "directio_files": 10, "records_ending_in_marker_prefix": 200},
-				Assumptions: []string{"direct-I/O writer is used without Seek/WriteSync (documented limitation) and with block-multiple buffers", "direct-I/O reader factory is exercised with ReadNext-only programs"},
+				Rule:        "seeded writer programs (Write/WriteSync/Seek back to an earlier record boundary/rejected Seek into the header or past the size/Close) over nil, empty, random, compressible and marker-laden records with sizes around buffer, page and 4 KiB-window boundaries x 4 compression types x write buffers {8,13,64,4096,64Ki,default} x buffered/direct-I/O writer; then (a) sequential reader programs mixing ReadNext and SkipNext with read buffers {1,3,16,37,4096,64Ki,4Mi} (every other second program over a file on disk through the direct-I/O reader factory, block-multiple buffers), both calls must report EOF at the end (also behind the zero padding of direct-I/O files), (b) ReadNextAt at every returned offset, (c) SeekNext from every byte offset 0..size (files <= 8 KiB; record starts +-2 and window boundaries beyond). Non-trivial: >=3 surviving records incl. a nil or marker-ending one and >=1 skip; distinct by hash of program+config. Payloads embedding a complete valid record image are not generated (format cannot distinguish them)",
+				MinObs:      map[string]int64{"seeknext_offsets_checked": 100000, "skips_checked": 1000, "nil_records_skipped": 50, "seek_back_programs": 100, "rejected_seeks": 100, "readat_checked": 5000, "directio_files": 10, "directio_reader_runs": 30, "records_ending_in_marker_prefix": 200},
+				Assumptions: []string{"direct-I/O writer is used without Seek/WriteSync (documented limitation) and with block-multiple buffers"},
 			}
 		},
 		Run: runC04,
@@ -263,7 +263,7 @@ func c04Sequential(c *fw.Case, path string, model []c04rec, cfg, feat string, pr
 	rounds := 2
 	for round := 0; round < rounds; round++ {
 		rbuf := gen.Pick(r, 1, 3, 16, 37, 4096, 65536, 4*1024*1024)
-		useDirectReader := round == 1 && r.Intn(6) == 0 && filepath.Dir(path) != c.Dir
+		useDirectReader := round == 1 && r.Intn(2) == 0 && filepath.Dir(path) != c.Dir
 		ropts := []recordio.FileReaderOption{recordio.ReaderPath(path), recordio.ReaderBufferSizeBytes(rbuf)}
 		if useDirectReader {
 			rbuf = gen.Pick(r, 4096, 8192)
@@ -284,7 +284,7 @@ func c04Sequential(c *fw.Case, path string, model []c04rec, cfg, feat string, pr
 			rfeat = feat + "/directio-reader"
 			c.Obs("directio_reader_runs", 1)
 		}
-		allRead := round == 0 || useDirectReader
+		allRead := round == 0
 		skippedNil, skippedAny := false, false
 		var rprog []string
 		for i, m := range model {
@@ -298,7 +298,7 @@ func c04Sequential(c *fw.Case, path string, model []c04rec, cfg, feat string, pr
 					c.Obs("nil_records_skipped", 1)
 				}
 				if err != nil {
-					c.Violate("recordio/seq/skip-error"+c04skipFeat(skippedNil, false)+feat, "%s rbuf=%d: SkipNext on record %d returned %v\nreader: %v\nprog: %v", cfg, rbuf, i, err, rprog, prog)
+					c.Violate("recordio/seq/skip-error"+c04skipFeat(skippedNil, false)+rfeat, "%s rbuf=%d: SkipNext on record %d returned %v\nreader: %v\nprog: %v", cfg, rbuf, i, err, rprog, prog)
 					_ = rd.Close()
 					return
 				}
@@ -327,9 +327,9 @@ func c04Sequential(c *fw.Case, path string, model []c04rec, cfg, feat string, pr
 		if !errors.Is(err, io.EOF) {
 			c.Violate("recordio/seq/no-eof"+c04skipFeat(skippedNil, skippedAny)+rfeat, "%s rbuf=%d: after %d records ReadNext returned (%s,%v) want EOF\nreader: %v\nprog: %v", cfg, rbuf, len(model), fw.Hex(got), err, rprog, prog)
 		}
-		if !directWritten && !useDirectReader {
+		if true {
 			if err := rd.SkipNext(); !errors.Is(err, io.EOF) {
-				c.Violate("recordio/seq/skip-no-eof"+feat, "%s rbuf=%d: SkipNext at the end returned %v want EOF", cfg, rbuf, err)
+				c.Violate("recordio/seq/skip-no-eof"+rfeat, "%s rbuf=%d: SkipNext at the end returned %v want EOF", cfg, rbuf, err)
 			}
 		}
 		if err := rd.Close(); err != nil {
